@@ -377,7 +377,11 @@ def _returns_as_breaks(stmts: list) -> list:
 
 
 def _tests_read_name(body: list, name: str) -> bool:
-    """Does a test inside the loop body (an `if` / `while` / conditional-expression test, a comprehension filter, an `assert`) read `name`?"""
+    """Does the loop body decide by MEMBERSHIP IN THE SET IT IS FILLING whether to add OTHER elements to it?
+    (`if s not in seen: seen.update(f(s))`, `if n in rv: rv |= preds(n)`).  Whether a later element passes the test then depends on what earlier
+    iterations added, and a closed comprehension over the value at loop entry is wrong.  The de-duplication idiom (`if x not in seen: seen.add(x)`:
+    the element tested is the element added) and tests of one entry of a table (`values[v]`) are not of this kind."""
+    tested = []
     for st in body:
         for n in ast.walk(st):
             tests = []
@@ -386,8 +390,24 @@ def _tests_read_name(body: list, name: str) -> bool:
             elif isinstance(n, ast.comprehension):
                 tests.extend(n.ifs)
             for t in tests:
-                if any(isinstance(x, ast.Name) and x.id == name and isinstance(x.ctx, ast.Load) for x in ast.walk(t)):
+                for c in ast.walk(t):
+                    if isinstance(c, ast.Compare) and len(c.ops) == 1 and isinstance(c.ops[0], (ast.In, ast.NotIn)) \
+                            and isinstance(c.comparators[0], ast.Name) and c.comparators[0].id == name:
+                        tested.append(ast.dump(c.left))
+    if not tested:
+        return False
+    for st in body:
+        for n in ast.walk(st):
+            if isinstance(n, ast.Call) and isinstance(n.func, ast.Attribute) and isinstance(n.func.value, ast.Name) and n.func.value.id == name:
+                if n.func.attr in ("update", "extend", "union", "intersection_update", "difference_update"):
                     return True
+                if n.func.attr in ("add", "append") and n.args and ast.dump(n.args[0]) not in tested:
+                    return True
+            if isinstance(n, ast.AugAssign) and isinstance(n.target, ast.Name) and n.target.id == name:
+                return True
+            if isinstance(n, ast.Assign) and any(isinstance(t_, ast.Name) and t_.id == name for t_ in n.targets) \
+                    and any(isinstance(x, ast.Name) and x.id == name for x in ast.walk(n.value)):
+                return True
     return False
 
 
